@@ -42,6 +42,7 @@ def run(chk):
     chk.attempt("B", lambda: builder(chk, P, "C04.B"))
     chk.attempt("Z", lambda: zero_fill(chk, P, "C04.Z"))
     chk.attempt("F", lambda: factories(chk, P, "C04.F"))
+    W.path_state_rule(chk, P, "C04.S", "Finnis-Sinclair write and build path")
     chk.assume("the consumers' conventions are as restated in the property: eam/fs block of X lists for each Y the density X "
                "contributes at a Y site; DL_POLY 'dens A B' is the density at A from B")
     chk.assume("species labels are non-empty strings")
